@@ -360,6 +360,13 @@ type c13Peer struct {
 	conns    []net.Conn
 	connSeq  int
 	busy     int // requests whose head was read and whose capture is not recorded yet
+	lives    map[string]*c13Live // path -> pacing of an interactive exchange (lane live)
+}
+
+func (p *c13Peer) liveFor(path string) *c13Live {
+	p.mu.Lock()
+	defer p.mu.Unlock()
+	return p.lives[path]
 }
 
 // waitIdle waits until every request the peer started to handle has been recorded.
@@ -479,6 +486,7 @@ func (p *c13Peer) serve(c net.Conn) {
 		if !ok {
 			script = c13Resp{raw: "HTTP/1.1 599 no script\r\nContent-Length: 0\r\n\r\n"}
 		}
+		live := p.liveFor(path)
 		att := c13Attempt{head: hs, conn: connID, path: path}
 		fail := func() {
 			p.mu.Lock()
@@ -536,6 +544,9 @@ func (p *c13Peer) serve(c net.Conn) {
 					}
 					wire.Write(buf)
 					payload.Write(buf[:n])
+					if live != nil {
+						live.gotUpload(int(n))
+					}
 				}
 				att.wire, att.payload = wire.String(), payload.String()
 			case cl > 0:
@@ -555,6 +566,23 @@ func (p *c13Peer) serve(c net.Conn) {
 		n := script.pieces
 		if n < 1 {
 			n = 1
+		}
+		if live != nil {
+			// interactive download: the head (chunked framing announced), then one chunk per
+			// piece, the next one only after the caller has read the previous one
+			if _, err := c.Write([]byte(raw)); err != nil {
+				return
+			}
+			for j, piece := range live.down {
+				if _, err := fmt.Fprintf(c, "%x\r\n%s\r\n", len(piece), piece); err != nil {
+					return
+				}
+				live.waitRead(j)
+			}
+			if _, err := c.Write([]byte("0\r\n\r\n")); err != nil {
+				return
+			}
+			continue
 		}
 		for i := 0; i < n; i++ {
 			lo, hi := len(raw)*i/n, len(raw)*(i+1)/n
